@@ -514,3 +514,58 @@ def cls1(ctx, prog, crate, roles, rid="CLS-1"):
         return None
     ctx.ok(rid, clo.path, {"valuations": n, "leaves": len(leaves), "assignment": sigma, "flags": up_tok}, clo.loc())
     return {"sigma": sigma, "info": info, "closure": clo, "up_tok": up_tok}
+
+
+# --------------------------------------------------------------------------- guarded reachability
+
+def unguarded_reach(lib, root, target, is_guarded):
+    """Is `target` reachable from `root` through crate-local call sites none of which satisfies
+    is_guarded(body, block, term)?  Returns the offending path (list of def-paths) or None."""
+    from sa import callgraph
+    cg = callgraph.CallGraph(lib)
+    prev = {root: None}
+    work = [root]
+    while work:
+        f = work.pop()
+        if f == target:
+            path = []
+            while f is not None:
+                path.append(f)
+                f = prev[f]
+            return list(reversed(path))
+        body = lib.body(f)
+        if body is None:
+            continue
+        nxt = set()
+        for bi, t in body.calls():
+            n = callee_name(t)
+            cands = set()
+            if n in lib.by_path:
+                cands.add(n)
+            # closures constructed here and conservative trait dispatch come from the call graph
+            if is_guarded(body, bi, t):
+                continue
+            nxt |= cands
+        # edges that are not direct calls (closures, impl dispatch): keep them, they carry no own guard
+        direct = {callee_name(t) for _, t in body.calls()}
+        for e in cg.edges.get(f, ()):
+            if e not in direct:
+                nxt.add(e)
+        for n in nxt:
+            if n not in prev:
+                prev[n] = f
+                work.append(n)
+    return None
+
+
+def guarded_by_field_true(field):
+    from sa import guards as G
+
+    def pred(body, bi, t):
+        for g in G.guards(body, bi):
+            if g["loop"]:
+                continue
+            if origin_config_field(g["origin"]) == field and G.edge_truth(g) is True:
+                return True
+        return False
+    return pred
